@@ -524,6 +524,7 @@ def check_C02(chk, R, S):
             "acts": ["settimer", "cancel", "send", "bcast", "flag", "goto"]}
     run_sim_class(chk, "sim-exhaustion", gen_many(R, S["sims"], prof), [M.mon_C02])
     run_sim_class(chk, "sim-watchdog", [gen_watchdog(R) for _ in range(max(60, S["sims"] // 4))], [M.mon_C02])
+    run_sim_class(chk, "sim-many-nodes-timers", [gen_many_nodes_timers(R) for _ in range(max(12, S["sims"] // 20))], [M.mon_C02])
     run_el_class(chk, "el-chronological", el_chrono(R, max(200, S["el_rand"] // 4)))
     run_el_class(chk, "el-around-source-constants", el_mined(R, max(300, S["el_rand"] // 4)))
     chk.exhaustive = True
@@ -638,6 +639,23 @@ def gen_many_names(R):
         for k in range(batch, N):
             rules.append({"trig": ("timer", 100 + k - batch), "nth": None, "acts": [("settimer", 100 + k, "rel", R.choice([0.25, 0.5, 1.0]))]
                           + ([("cancel", 100 + R.randrange(k))] if R.random() < 0.15 else [])})
+        script.append(rules)
+    return {"handlers": ["T"], "nodes": [{"pos": (float(i), 0.0, 0.0), "ty": 0} for i in range(nn)],
+            "med": (1000.0, 0.0, 0.0), "mob": (1.0, 1.0, (0.0, 0.0, 0.0)), "asserts": [], "seed": R.randrange(1 << 30),
+            "dur": None, "maxit": None, "drv": ("run",), "script": script}
+
+
+def gen_many_nodes_timers(R):
+    """11-30 nodes whose timers carry one- and two-digit names (job numbers), set, cancelled and re-set: node 1's timer
+    "12" and node 11's timer "2" are different timers"""
+    nn = R.randint(11, 30)
+    names = [0, 1, 2, 3, 10, 11, 12, 20, 21, 22, 23]
+    script = []
+    for me in range(nn):
+        mine = R.sample(names, R.randint(2, 5))
+        rules = [{"trig": ("init",), "nth": None, "acts": [("settimer", k, "abs", R.choice([1.0, 1.5, 2.0, 2.5])) for k in mine]
+                  + ([("settimer", 99, "abs", 0.5)] if R.random() < 0.7 else [])},
+                 {"trig": ("timer", 99), "nth": None, "acts": [("cancel", R.choice(names)) for _ in range(R.randint(1, 3))]}]
         script.append(rules)
     return {"handlers": ["T"], "nodes": [{"pos": (float(i), 0.0, 0.0), "ty": 0} for i in range(nn)],
             "med": (1000.0, 0.0, 0.0), "mob": (1.0, 1.0, (0.0, 0.0, 0.0)), "asserts": [], "seed": R.randrange(1 << 30),
@@ -984,6 +1002,7 @@ def check_C07(chk, R, S):
     run_sim_class(chk, "sim-external-requests", [gen_drive_scenario(R) for _ in range(max(100, S["sims"] // 2))], [M.mon_C07])
     run_sim_class(chk, "sim-watchdog", [gen_watchdog(R) for _ in range(max(100, S["sims"] // 2))], [M.mon_C07])
     run_sim_class(chk, "sim-many-timer-names", [gen_many_names(R) for _ in range(max(12, S["sims"] // 20))], [M.mon_C07])
+    run_sim_class(chk, "sim-many-nodes-timers", [gen_many_nodes_timers(R) for _ in range(max(12, S["sims"] // 20))], [M.mon_C07])
 
 
 def check_C08(chk, R, S):
